@@ -110,7 +110,7 @@ def run(ck, prog, tier, load):
             gl = b.guards(bb)
             near = ("%s=%s" % (short(gl[0][0], 2), gl[0][1])) if gl else "entry"
             ck.ob("C04-b.pending-saw-context", "%s|under %s" % (b.npath.split("::")[-1], near), ok, b, bb, "literal Pending is dominated by a call that received the task context")
-    ck.anchor("C04-b", n, 6, "literal Poll::Pending returns in h1 dispatcher bodies with a Context")
+    ck.anchor("C04-b", n, 3, "literal Poll::Pending returns in h1 dispatcher bodies with a Context")
 
     poll = disp_poll(prog)
     wk = [bb for bb, t in poll.calls(r"Waker::wake_by_ref$")]
@@ -255,5 +255,5 @@ def timer_polls_observed(ck, prog, P):
             wakes = [w for w, t2 in b.calls(r"Waker::wake_by_ref$|Waker::wake$")]
             ck.ob(P + ".timer-poll-observed", "%s" % b.npath.split("::")[-1], branched or returned, b, bb,
                   "the Poll returned by polling a timer is examined (branched on or returned): a discarded `Ready` means an already-expired deadline is never acted upon and no wake-up is registered for it")
-    ck.anchor(P, n_tp, 4, "polls of dispatcher timers (init, head, keep-alive, shutdown)")
+    ck.anchor(P, n_tp, 2, "polls of dispatcher timers (init, head, keep-alive, shutdown)")
 
